@@ -1,5 +1,14 @@
 def run(ctx):
-    """C18.refuse: order statistics (chunk == (None,)) are computed blockwise or refused with ValueError."""
-    from . import plan_proofs
+    """C18.refuse: order statistics (chunk == (None,)) are computed blockwise or refused with ValueError;
+    C18.interpolation: _lerp is the linear interpolation a + gamma*(b - a) (over the reals)."""
+    from ..contracts import quantile as Q
+    from ..pyvc.run import add_to_ctx
+    from . import finalize_proofs, plan_proofs
 
-    return plan_proofs.run(ctx, which=("choose_method",), pid="C18")
+    note = plan_proofs.run(ctx, which=("choose_method",), pid="C18")
+    finalize_proofs._patch()
+    n = 0
+    for c in Q.all_quantile():
+        ex, obs = add_to_ctx(ctx, c, {})
+        n += len(obs)
+    return note + f" _lerp: {n} obligations (linear interpolation between the two order statistics, with and without an out buffer)."
